@@ -39,9 +39,10 @@ func NewServer(routerID netip.Addr) (*Server, error) {
 }
 
 var (
-	ErrServerClosed      = errors.New("server closed")
-	ErrPeerNotExist      = errors.New("peer does not exist")
-	ErrPeerAlreadyExists = errors.New("peer already exists")
+	ErrServerClosed         = errors.New("server closed")
+	ErrServerAlreadyServing = errors.New("server already serving")
+	ErrPeerNotExist         = errors.New("peer does not exist")
+	ErrPeerAlreadyExists    = errors.New("peer already exists")
 )
 
 func (s *Server) handleInboundConn(conn net.Conn) {
@@ -82,6 +83,12 @@ func (s *Server) Serve(listeners []net.Listener) error {
 		s.mu.Unlock()
 		return ErrServerClosed
 	default:
+	}
+	if s.serving {
+		// a second concurrent Serve would start every peer twice and close
+		// doneServingCh twice
+		s.mu.Unlock()
+		return ErrServerAlreadyServing
 	}
 
 	// set serving state and enable peers
